@@ -1324,10 +1324,14 @@ theorem C07 : C07_statement := by
   · intro isRet sel path c h1 h2; exact bad_path_is_error s isRet sel path c h1 h2
   · intro isRet path i hi; exact (bad_selector_is_error s isRet path).1 i hi
 
-/-! ## Finding F3: what happens without the lower-bound tests
+/-! ## History — finding F3 (fixed in /repo by aab3c52): what happens without the lower-bound tests
 
 `Comp.stepWith false` / `Tuple.atWith false` are `Index` / `At` with only the
-upper-bound test (`i >= len`), as in the source before the repair. -/
+upper-bound test (`i >= len`), as in the source before the repair.  These
+theorems are kept as the record of why the tests are necessary; the property
+theorems above are about the model WITH the tests (the current source) and are
+at full strength.  The requests stay in the generated stream and the corpus as
+regressions. -/
 
 /-- `func(x [4]uint32)` -/
 def exArr : Sig := ⟨[⟨[['x']], .array 4 (.basic .uint32)⟩], []⟩
